@@ -5,6 +5,7 @@ import (
 	"go/token"
 	"go/types"
 	"sort"
+	"strconv"
 	"strings"
 
 	"golang.org/x/tools/go/ssa"
@@ -348,7 +349,25 @@ func (e *Ex) expr(v ssa.Value, d int) string {
 		}
 		return s + "]"
 	case *ssa.BinOp:
-		return "(" + e.expr(x.X, d+1) + x.Op.String() + e.expr(x.Y, d+1) + ")"
+		l, r := e.expr(x.X, d+1), e.expr(x.Y, d+1)
+		// arithmetic over a helper parameter that resolved to a constant argument is that constant
+		_, px := strip(x.X).(*ssa.Parameter)
+		_, py := strip(x.Y).(*ssa.Parameter)
+		if px || py {
+			if a, okA := constText(l); okA {
+				if b, okB := constText(r); okB {
+					switch x.Op {
+					case token.ADD:
+						return fmt.Sprintf("const(%d)", a+b)
+					case token.SUB:
+						return fmt.Sprintf("const(%d)", a-b)
+					case token.MUL:
+						return fmt.Sprintf("const(%d)", a*b)
+					}
+				}
+			}
+		}
+		return "(" + l + x.Op.String() + r + ")"
 	case *ssa.Phi:
 		e.seen[v] = true
 		set := map[string]bool{}
@@ -406,6 +425,15 @@ func (e *Ex) expr(v ssa.Value, d int) string {
 	return fmt.Sprintf("?%T", v)
 }
 
+// constText: the integer of a printed "const(n)".
+func constText(s string) (int64, bool) {
+	if !strings.HasPrefix(s, "const(") || !strings.HasSuffix(s, ")") {
+		return 0, false
+	}
+	n, err := strconv.ParseInt(s[6:len(s)-1], 10, 64)
+	return n, err == nil
+}
+
 // paramUp: a parameter of a helper (any function of Tree(focus) other than the focus) prints as the argument at
 // its call sites in Tree(focus) when they all print alike.
 func (e *Ex) paramUp(p *ssa.Parameter, d int) (string, bool) {
@@ -430,7 +458,7 @@ func (e *Ex) paramUp(p *ssa.Parameter, d int) (string, bool) {
 		if idx < 0 || idx >= len(args) {
 			return "", false
 		}
-		cur := e.expr(args[idx], d+1)
+		cur := e.expr(args[idx], d)
 		if i > 0 && cur != out {
 			return "", false
 		}
